@@ -20,7 +20,10 @@ func (h *vHist) newWorlds(optsA, optsB []Option) (*vWorld, *vWorld) {
 
 func verifC17run(p *vProfile) {
 	h := &vHist{p: p}
-	a, b := h.newWorlds(nil, []Option{DryRun(true)})
+	opts := h.options()
+	a, b := h.newWorlds(opts, append([]Option{DryRun(true)}, opts...))
+	a.recover, b.recover = h.wRecover, h.wRecover
+	a.deferV, b.deferV = h.wDefer, h.wDefer
 	b.dry = true
 	for _, step := range h.skeleton() {
 		ops := step()
@@ -411,6 +414,49 @@ func verifC15run(p *vProfile) {
 		}
 	}
 }
+
+type vC15UnexpFirst struct {
+	x  *vT1 //nolint:unused
+	In `ignore-unexported:"true"`
+	A  *vT0
+}
+
+type vC15UnexpLast struct {
+	In `ignore-unexported:"true"`
+	A  *vT0
+	x  *vT1 //nolint:unused
+}
+
+// verifC15e: positional, embed-first and embed-later spellings of func(*vT0) *vT2.
+func verifC15e() {
+	ran := [3]int{}
+	fns := []interface{}{
+		func(a *vT0) *vT2 { ran[0]++; return &vT2{} },
+		func(p vC15UnexpLast) *vT2 { ran[1]++; return &vT2{} },
+		func(p vC15UnexpFirst) *vT2 { ran[2]++; return &vT2{} },
+	}
+	withDep := verifNdBool("withdep")
+	var verdicts [3]string
+	for i, fn := range fns {
+		c := New()
+		if withDep {
+			_ = c.Provide(func() *vT0 { return &vT0{} })
+		}
+		fn := fn
+		o := vGuard(func() error { return c.Provide(fn) })
+		oi := vGuard(func() error { return c.Invoke(func(*vT2) {}) })
+		verdicts[i] = vClassNames[o.class] + "/" + vClassNames[oi.class] + "/" + vItoa(ran[i])
+		verifObserve("spelling " + vItoa(i) + ": " + verdicts[i])
+	}
+	verifAssert("C15.same", verdicts[0] == verdicts[1])
+	verifAssert("C15.same", verdicts[0] == verdicts[2])
+	verifWitness("encoding-differs")
+	if withDep {
+		verifWitness("invoke-ok")
+	}
+}
+
+func init() { verifEntries["verifC15e"] = verifC15e }
 
 func verifC15a() {
 	verifC15run(&vProfile{name: "C15a", clauses: []string{"C15."},
